@@ -268,6 +268,36 @@ PROPS = {
         "assumptions": ["shopspring/decimal arithmetic and String() behave as the Rat model (sampled on every run by the dec stream)",
                         "two declarations of the same unordered pair on one day are inserted in file order (in-process journal.Builder.Add order); concurrent file loading is C05/C19"],
     },
+    "C14": {
+        "lean": ["Knut.Properties.C14"],
+        "level": "proof",
+        "claim": "PARTIAL proof + subprocess monitors. Proved in Lean for ALL inputs of the model (any bytes, any include graph, any flag vector): the recursive loader "
+                 "(syntax.parseRec over a file system Path -> Option Bytes with finitely many readable cleaned paths and an arbitrary parser; path.Clean / filepath.Dir / path.Join modelled) is "
+                 "defined WITHOUT fuel and its include chain is never longer than the number of readable paths + 1 (C14_loader_depth_bounded); it has no panic outcome (C14_loader_no_panic); a "
+                 "missing, unreadable or rejected file reached by include directives fails the load (C14_included_error_fails); any cycle under any spelling of the paths is an error "
+                 "(C14_cycle_is_error, C14_self_include_is_error); the load succeeds exactly if no include walk ends in a failing call (C14_load_ok_iff). For the composed outcome model "
+                 "Cmd.run of check, balance, print, format, infer, transcode (loader + model.FromStream elaboration + the existing processor/printer models) and portfolioClass: a loader error "
+                 "is a command error (C14_included_error_fails_command), a failing command has written nothing to stdout (C14_error_stdout_empty; tied to the source by the extracted fact that "
+                 "every report command creates its stdout writer after its last fallible call), and NO command panics (C14_no_panic, C14_no_panic_portfolio) under exactly the guards of the two "
+                 "recorded findings (an @accrue window starting 0001-01-01; a report window starting 0001-01-01), which are shown necessary (C14_zero_window_panics); the monitor predicate "
+                 "failsCleanly holds of the model (C14_fails_cleanly). Not provable in a model: wall-clock hangs, memory exhaustion, panics inside cobra/pflag/regexp/yaml. Decided on every "
+                 "run on the REAL binary: ~2900 (thorough ~60k) subprocess runs of all nine command forms under a 10 s wall-clock bound and an address-space limit, over include graphs (cycles, "
+                 "self-includes, diamonds, missing/dir/unreadable/symlink-loop files, deep chains, many siblings, bad leaves under schedule perturbation), arbitrary and mutated bytes, boundary "
+                 "journals (dates 0000/0001/9999, accrual windows, zero prices, empty files) and hostile flag values; the Lean predicate failsCleanly is evaluated on every run and the outcome "
+                 "class is compared with Cmd.run on the file system the run saw.",
+        "note": "Trusted: Lean kernel; axioms propext, Classical.choice, Quot.sound. The file-system model assumes finitely many readable cleaned paths (true of any OS through PATH_MAX). The "
+                "parser is the C07 model; Range.Extract of parsed elements is the slice (C07_extract_is_slice). cobra/pflag, regexp, yaml, runtime behaviour (time, memory) can only be sampled. "
+                "Findings on the unchanged code (known_findings.jsonl): transaction-dated-0001-01-01 and accrual-window-starting-0001-01-01 (panics, predicted by the model), absurd-digits-hang "
+                "(--digits of 10^7 and more runs for minutes to hours), calendar-wide-window-memory (a --days report or daily accrual over the whole calendar needs gigabytes).",
+        "rule": "streams: graph (20 shapes of include graphs x 9 command forms x schedule seeds x GOMAXPROCS), bytes (random bytes, random ASCII, truncated and token-mutated journals), special (44 "
+                "boundary journals x drawn window flags incl. inverted windows, huge/negative --last, negative --digits), flags (41 argv-level variants: unknown flags, bad regex/map/dates, "
+                "missing/dir/empty paths, absent -v, universe files), slow (the recorded resource findings), paths (path.Clean and path.Join(filepath.Dir) vs the model). A class = "
+                "(stream, kind, command, observed outcome class); distinct_nontrivial counts classes hit.",
+        "assumptions": ["the file system has finitely many readable cleaned paths (PATH_MAX)",
+                        "the processors' models (Check, Balance, Beancount, Table, Infer, Syntax printer) behave as the code: established by their own properties' correspondence checks; here only the outcome class is compared",
+                        "wall-clock and memory behaviour is sampled on the generated inputs, not proved"],
+        "timeout": {"quick": 1200, "thorough": 5400},
+    },
     "C17": {
         "lean": ["Knut.Properties.C17"],
         "level": "proof",
